@@ -13,12 +13,22 @@ def scenario(task):
     nt, d, m, B, ts, dt, degy = task[:7]
     y0_grad = task[7] if len(task) > 7 else True
     extras_loss = task[8] if len(task) > 8 else False
+    subset = task[9] if len(task) > 9 else False        # adjoint_params = the diffusion parameters only (a documented option)
     grads = []
     fw = []
     for adjoint in (True, False):
         mk = sdes.Maker(symbolic=True, seed=21)
-        sde, bm, y0, ys = solve(mk, 'stratonovich', 'reversible_heun', nt, {}, d, m, B, ts, dt, degy=degy, adjoint=adjoint,
-                                adjoint_method='adjoint_reversible_heun' if adjoint else None, y0_grad=y0_grad, **({'extra': True} if extras_loss else {}))
+        kw = {'extra': True} if extras_loss else {}
+        sde0 = None
+        if subset:
+            sde0 = sdes.PolySDE(mk, 'stratonovich', nt, d=d, m=e1.noise_dim(nt, d, m), degt=1, degy=degy, params_grad=True)
+            if adjoint:
+                kw['adjoint_params'] = [sde0.gb]
+        try:
+            sde, bm, y0, ys = solve(mk, 'stratonovich', 'reversible_heun', nt, {}, d, m, B, ts, dt, degy=degy, adjoint=adjoint,
+                                    adjoint_method='adjoint_reversible_heun' if adjoint else None, y0_grad=y0_grad, sde=sde0, **kw)
+        except Exception as e:
+            return dict(task=task, bad=[(f'crash in the forward pass: {type(e).__name__}: {e}', 'sat', {})], identities=0, solver_s=0.0, queries=0, twin=True)
         if extras_loss:       # the returned extra solver state (f, g, z) is part of what the caller may differentiate
             ys, extras = ys
         validate(ys, mk.env, 1e-8)
@@ -26,9 +36,14 @@ def scenario(task):
         if extras_loss:
             for nm, x in zip(('lf', 'lg', 'lz'), extras):
                 loss = loss + e1.weighted_loss(mk, x, prefix=nm)
-        params = list(sde.parameters())
+        params = [sde.gb] if subset else list(sde.parameters())
         # a fixed initial condition (y0 not requiring grad, only the parameters are trained) is a different autograd path
-        g = torch.autograd.grad(loss, ([y0] if y0_grad else []) + params, allow_unused=True)
+        try:
+            g = torch.autograd.grad(loss, ([y0] if y0_grad else []) + params, allow_unused=True)
+        except Exception as e:
+            if not adjoint:
+                raise
+            return dict(task=task, bad=[(f'crash in the backward pass: {type(e).__name__}: {e}', 'sat', {})], identities=0, solver_s=0.0, queries=0, twin=True)
         if not y0_grad:
             g = (torch.zeros_like(y0),) + tuple(g)
         for x in g:
@@ -41,7 +56,7 @@ def scenario(task):
     n = 0
     if any(a is not b for a, b in zip(e1.flat_nodes(fw[0]), e1.flat_nodes(fw[1]))):
         bad.append(('forward values differ between sdeint_adjoint and sdeint', 'structure', {}))
-    for tname, ga, gb in zip(['y0', 'a', 'b'], grads[0], grads[1]):
+    for tname, ga, gb in zip(['y0', 'b'] if subset else ['y0', 'a', 'b'], grads[0], grads[1]):
         if ga is None or gb is None:
             bad.append((tname, 'none-gradient', {})); continue
         for k, (x, y) in enumerate(zip(e1.flat_nodes(ga), e1.flat_nodes(gb))):
@@ -58,6 +73,7 @@ def tasks_for(tier):
     T = [(nt, 1, 2, 1, ts2, 0.1, 2) for nt in ('diagonal', 'scalar', 'additive', 'general')]
     T += [('diagonal', 1, 2, 1, ts2, 0.1, 2, False), ('general', 1, 2, 1, ts2, 0.1, 1, False)]
     T += [('diagonal', 1, 2, 1, ts2, 0.1, 1, True, True), ('general', 1, 2, 1, ts2, 0.1, 1, False, True)]      # loss also on the returned extras
+    T += [('diagonal', 1, 2, 1, ts2, 0.1, 1, True, False, True), ('additive', 1, 2, 1, ts2, 0.1, 1, True, False, True)]    # adjoint_params = a subset
     if tier != 'quick':
         T += [(nt, 2, 2, 2, ts2, 0.1, 1) for nt in ('diagonal', 'scalar', 'additive', 'general')]
         T += [(nt, 1, 2, 1, ts3, 0.1, 1) for nt in ('diagonal', 'general')]
@@ -76,7 +92,7 @@ def run(ctx):
     tasks = tasks_for(ctx.tier)
     tw = 0
     for t, (st_, res) in zip(tasks, pmap(scenario, tasks)):
-        name = f"noise={t[0]} d={t[1]} m={t[2]} B={t[3]} ts={t[4]} deg={t[6]}" + (" y0 without grad" if len(t) > 7 and not t[7] else "") + (" loss on extras" if len(t) > 8 and t[8] else "")
+        name = f"noise={t[0]} d={t[1]} m={t[2]} B={t[3]} ts={t[4]} deg={t[6]}" + (" y0 without grad" if len(t) > 7 and not t[7] else "") + (" loss on extras" if len(t) > 8 and t[8] else "") + (" adjoint_params=subset" if len(t) > 9 and t[9] else "")
         if st_ != 'ok':
             ctx.inconc(name, str(res)[:600]); continue
         ctx.paths += 1; ctx.queries += res['queries']; ctx.solver_s += res['solver_s']; ctx.validated += 2
@@ -97,11 +113,22 @@ def replay(data):
     nt, d, m, B, ts, dt, degy = task[:7]
     y0_grad = task[7] if len(task) > 7 else True
     extras_loss = task[8] if len(task) > 8 else False
+    subset = task[9] if len(task) > 9 else False
     out = []
     for adjoint in (True, False):
         mk = sdes.Maker(symbolic=False, seed=21)
-        sde, bm, y0, ys = solve(mk, 'stratonovich', 'reversible_heun', nt, {}, d, m, B, ts, dt, degy=degy, adjoint=adjoint,
-                                adjoint_method='adjoint_reversible_heun' if adjoint else None, y0_grad=y0_grad, **({'extra': True} if extras_loss else {}))
+        kw = {'extra': True} if extras_loss else {}
+        sde0 = None
+        if subset:
+            sde0 = sdes.PolySDE(mk, 'stratonovich', nt, d=d, m=e1.noise_dim(nt, d, m), degt=1, degy=degy, params_grad=True)
+            if adjoint:
+                kw['adjoint_params'] = [sde0.gb]
+        try:
+            sde, bm, y0, ys = solve(mk, 'stratonovich', 'reversible_heun', nt, {}, d, m, B, ts, dt, degy=degy, adjoint=adjoint,
+                                    adjoint_method='adjoint_reversible_heun' if adjoint else None, y0_grad=y0_grad, sde=sde0, **kw)
+        except Exception as e:
+            print('replay C10: crash', type(e).__name__, e)
+            return True
         extras = ()
         if extras_loss:
             ys, extras = ys
@@ -109,7 +136,11 @@ def replay(data):
         loss = (ys * w).sum()
         for k, x in enumerate(extras):
             loss = loss + (x * (0.3 + 0.1 * k + 0.05 * torch.arange(x.numel(), dtype=x.dtype).reshape(x.shape))).sum()
-        g = torch.autograd.grad(loss, ([y0] if y0_grad else []) + list(sde.parameters()), allow_unused=True)
+        try:
+            g = torch.autograd.grad(loss, ([y0] if y0_grad else []) + ([sde.gb] if subset else list(sde.parameters())), allow_unused=True)
+        except Exception as e:
+            print('replay C10: crash in backward', type(e).__name__, e)
+            return True
         out.append(torch.cat([x.reshape(-1) for x in g]))
     rel = float(((out[0] - out[1]).abs() / out[1].abs().clamp_min(1e-12)).max())
     print('replay C10: max relative difference adjoint vs backprop', rel)
